@@ -39,7 +39,7 @@ REQUIRED = {"events.grammar": {"quick": 600, "thorough": 30000}, "events.all_for
             "progress3.chars": {"quick": 500, "thorough": 25000}, "json.readback_file": {"quick": 100, "thorough": 300},
             "factory.own_file_has_own_report": {"quick": 150, "thorough": 6000},
             "factory.formatter_without_file_writes_stdout": {"quick": 50, "thorough": 2000}}
-REQUIRED_SEEN = {"environment_habit": ["raising_testrun_cleanup"], "config_file_outfiles": ["given", "none"], "formatter_active": BUILTINS, "pretty_step_line_length": ["at_a_multiple_of_the_terminal_width", "next_to_a_multiple"]}
+REQUIRED_SEEN = {"terminal_size_reported": ["some_rows_some_columns", "some_rows_zero_columns", "zero_rows_some_columns", "zero_rows_zero_columns"], "environment_habit": ["raising_testrun_cleanup"], "config_file_outfiles": ["given", "none"], "formatter_active": BUILTINS, "pretty_step_line_length": ["at_a_multiple_of_the_terminal_width", "next_to_a_multiple"]}
 NSHARDS = {"quick": 16, "thorough": 16}
 DOT = {"passed": ".", "failed": "F", "error": "E", "hook_error": "H", "skipped": "S", "untested": "_",
        "untested_pending": "p", "untested_undefined": "u", "undefined": "U", "pending": "P", "pending_warn": "p"}
@@ -765,9 +765,67 @@ def config_file_formatters(mon, rng):
         shutil.rmtree(root, ignore_errors=True)
 
 
+def pretty_on_a_pty(mon, rng, size):
+    """`python -m behave -f pretty -f json -o report.json` started from a terminal (stdin is a pty) whose window size reports
+    *size* = (rows, columns) -- zeros included, as terminals without a known size do: the run completes and the JSON report
+    mirrors the model like in any other run."""
+    import pty, fcntl, termios, struct, json as _json
+    from ..lab.subproc import Project
+    case = RB.gen_case(rng, gen={"max_features": 1, "max_rules": 0, "p_nonpass": 0.3, "outcomes": [o for o in OUTCOMES if o not in ("ki",)]},
+                       p_stop=0.0, p_dry=0.0, p_noskipped=0.0, tags=False)
+    pred = runmodel.predict(case["program"], case["cfg"])
+    for _try in range(8):
+        if not (pred.aborted or any(len(v) != 1 for v in pred.scen_status.values())):
+            break
+        case = RB.gen_case(rng, gen={"max_features": 1, "max_rules": 0, "p_nonpass": 0.2, "outcomes": ["fail", "error", "undefined", "pending"]},
+                           p_stop=0.0, p_dry=0.0, p_noskipped=0.0, tags=False)
+        pred = runmodel.predict(case["program"], case["cfg"])
+    else:
+        return
+    master, slave = pty.openpty()
+    proj = Project(case["program"], {})
+    try:
+        fcntl.ioctl(slave, termios.TIOCSWINSZ, struct.pack("HHHH", size[0], size[1], 0, 0))
+        res = proj.run(case["args"] + ["-f", "json", "-o", "report.json", "-f", "pretty"], stdin=slave)
+        try:
+            with open(os.path.join(proj.root, "report.json"), encoding="utf-8") as fh:
+                report_text = fh.read()
+        except OSError as ex:
+            report_text = "<%r>" % (ex,)
+    finally:
+        proj.close()
+        os.close(master)
+        os.close(slave)
+    c2 = dict(case, terminal_rows_columns=list(size))
+    if res.get("timeout"):
+        mon.note("subprocess watchdog fired (inconclusive case)")
+        return
+    mon.case(("pty", RB.strip_case(c2)), True)
+    mon.seen("terminal_size_reported", "%s_rows_%s_columns" % ("zero" if not size[0] else "some", "zero" if not size[1] else "some"))
+    try:
+        data = _json.loads(report_text)
+        got = {}
+        for f in data:
+            for el in f.get("elements", []):
+                if el.get("type") in ("scenario", "scenario_outline") or el.get("keyword", "").startswith("Scenario"):
+                    got[el["name"]] = el.get("status")
+                for sub in el.get("elements", []) if el.get("type") == "rule" else []:
+                    got[sub["name"]] = sub.get("status")
+        err = None
+    except Exception as ex:
+        got, err = None, repr(ex)
+    want = {n: next(iter(v)) for n, v in pred.scen_status.items()}
+    mon.check("process.pretty_on_a_terminal_of_any_size_completes", err is None and res["rc"] in {int(v) for v in pred.verdict} and
+              "Traceback" not in res["stderr"] and got == want,
+              lambda: RB.witness(c2, rc=res["rc"], error=err, got=got, want=want, stderr=res["stderr"][-600:], report=report_text[:300]))
+
+
 def run(spec, mon):
     from ..lab.inproc import RunLab
     lab = RunLab()
+    sizes = [(24, 80), (24, 0), (0, 80), (0, 0), (50, 132), (1, 1)]
+    for j in range(1 if spec.get("tier", "quick") == "quick" else 12):
+        pretty_on_a_pty(mon, random.Random(spec["seed"] * 31 + j), sizes[(spec["shard"] + j) % len(sizes)])
     for _ in range(20 if spec.get("tier", "quick") == "quick" else 400):
         config_file_formatters(mon, random.Random(spec["seed"] * 7919 + _))
     tier = spec.get("tier", "quick")
